@@ -627,6 +627,11 @@ class vDatetime(TimeBase):
     def __init__(self, dt, params={}):
         self.dt = dt
         self.params = Parameters(params)
+        # Derive the TZID parameter here and not while rendering, so that
+        # to_ical() does not change the value it serialises.
+        tzid = tzid_from_dt(dt) if isinstance(dt, datetime) else None
+        if tzid and tzid != 'UTC':
+            self.params.update({'TZID': tzid})
 
     def to_ical(self):
         dt = self.dt
